@@ -10,6 +10,7 @@ class Server:
         self.data = data
         self.script = list(script or [])
         self.default = default
+        self.flood_sent = []    # bytes actually taken by the client for every "flood" answer
         self.log = []           # (offset, size) or None per request, in order
         self.raw = []
         self.lock = threading.Lock()
@@ -105,6 +106,22 @@ class Server:
             send(206, len(body), bytes((x ^ 0x5A) for x in body))
         elif kind == "empty":
             send(206, 0, b"")
+        elif kind == "flood":          # ("flood", n): the right bytes followed by n bytes nobody asked for
+            total = len(body) + act[1]
+            sent = 0
+            try:
+                conn.sendall(("HTTP/1.1 206 X\r\nContent-Length: %d\r\nConnection: close\r\n\r\n" % total).encode())
+                conn.sendall(body)
+                sent = len(body)
+                block = b"\0" * 65536
+                conn.settimeout(10)
+                while sent < total:
+                    conn.sendall(block)
+                    sent += len(block)
+            except OSError:
+                pass
+            with self.lock:
+                self.flood_sent.append((len(body), sent))
         elif kind == "status":         # plain error status, short body
             send(act[1], 9, b"not found")
         else:
